@@ -167,7 +167,30 @@ fn unhex(s: &str) -> Vec<u8> {
     (0..s.len() / 2).map(|i| u8::from_str_radix(&s[2 * i..2 * i + 2], 16).unwrap_or(0)).collect()
 }
 
+/// The C library registers a restartable-sequences area in every thread's control block, which sits at the top of the
+/// thread's stack mapping; the kernel rewrites its cpu fields whenever the thread resumes on another CPU (for instance when
+/// a tracer detaches), so a stack captured during a dump would differ from the target's memory read afterwards although the
+/// thread never ran user code.  Every thread of the target therefore un-registers the area first: nothing but the thread
+/// itself writes its stack from then on.
+fn rseq_off() {
+    extern "C" {
+        static __rseq_offset: isize;
+        static __rseq_size: u32;
+    }
+    unsafe {
+        if __rseq_size == 0 {
+            return;
+        }
+        let tp: usize;
+        std::arch::asm!("mov {}, fs:0", out(reg) tp);
+        let area = (tp as isize + __rseq_offset) as usize;
+        // RSEQ_FLAG_UNREGISTER = 1, RSEQ_SIG = 0x53053053; the length is the one glibc registered (32)
+        libc::syscall(libc::SYS_rseq, area, 32usize, 1usize, 0x5305_3053usize);
+    }
+}
+
 fn main() {
+    rseq_off();
     // a panic anywhere (bad scenario) must end the process, never leave the driver waiting
     std::panic::set_hook(Box::new(|i| {
         eprintln!("mdw-target panic: {i}");
@@ -367,6 +390,7 @@ fn set_comm(name: &[u8]) {
 }
 
 fn thread_main(slot: usize, t: Value, regions: std::collections::HashMap<String, (usize, usize, usize, usize)>, tx: std::sync::mpsc::Sender<(usize, Value)>) {
+    rseq_off();
     let tid = unsafe { libc::syscall(libc::SYS_gettid) } as u64;
     if let Some(n) = t.get("name_hex").and_then(|v| v.as_str()) {
         set_comm(&unhex(n));
